@@ -3,6 +3,7 @@
 pub mod bits;
 pub mod crc;
 pub mod decode;
+pub mod encode;
 pub mod model;
 pub mod page;
 pub mod xml;
